@@ -161,8 +161,8 @@ class DiagonalNormal(Distribution):
             )
 
         # Compute parameters.
-        means = self.mean_
-        log_stds = self.log_std_
+        means = self.mean_.reshape(1, *self._shape)
+        log_stds = self.log_std_.reshape(1, *self._shape)
 
         # Compute log prob.
         norm_inputs = (inputs - means) * torch.exp(-log_stds)
@@ -177,4 +177,4 @@ class DiagonalNormal(Distribution):
         raise NotImplementedError()
 
     def _mean(self, context):
-        return self.mean
+        return self.mean_.reshape(self._shape)
